@@ -14,7 +14,7 @@ from . import common, world, c08
 from .common import Instance, Check
 
 MODS = None
-PIN = ('secret', 'spi_i', 'nonce', 'addr')
+PIN = ('secret', 'spi_i1', 'nonce1', 'addr1', 'spi_i2', 'nonce2', 'addr2')
 
 
 def spy_dh():
@@ -31,30 +31,17 @@ def spy_dh():
     return calls, real
 
 
-def h_responder(n_cookies, nonce_len, cookie_len=32):
-    from symx import core, shims
-    import ipaddress
-    eng = core.engine()
-    m, ik = MODS['message'], MODS['ikesa']
-    S = ik.IkeSa.State
-    p = world.Pair()
-    m1 = bytes(p.init_req())
-    base = m.Message.parse(m1)
-    secret = eng.sym_bytes('secret', 8)
-    spi_i = eng.sym_bytes('spi_i', 8)
-    nonce = eng.sym_bytes('nonce', nonce_len)
-    addr = eng.sym_int('addr', 0, 0xFFFFFFFF)
-    peer_addr = shims._mk_addr(ipaddress.IPv4Address, addr) if not isinstance(addr, int) else ipaddress.IPv4Address(addr)
-    cookies = [eng.sym_bytes(f'cookie{i}', cookie_len if i == 0 else 32) for i in range(n_cookies)]
+def _request(m, base, spi_i, nonce, cookies):
     payloads = [m.PayloadNOTIFY(m.Proposal.Protocol.NONE, m.PayloadNOTIFY.Type.COOKIE, b'', c) for c in cookies]
     for pl in base.payloads:
-        if pl.type == m.Payload.Type.NONCE:
-            payloads.append(m.PayloadNONCE(nonce))
-        else:
-            payloads.append(pl)
-    req = m.Message(spi_i=spi_i, spi_r=b'\0' * 8, major=2, minor=0, exchange_type=34, is_response=False, can_use_higher_version=False,
-                    is_initiator=True, message_id=0, payloads=payloads, encrypted_payloads=[])
-    data = req.to_bytes()
+        payloads.append(m.PayloadNONCE(nonce) if pl.type == m.Payload.Type.NONCE else pl)
+    return m.Message(spi_i=spi_i, spi_r=b'\0' * 8, major=2, minor=0, exchange_type=34, is_response=False, can_use_higher_version=False,
+                     is_initiator=True, message_id=0, payloads=payloads, encrypted_payloads=[]).to_bytes()
+
+
+def _respond(p, secret, spi_i, peer_addr, data):
+    """a fresh responder IKE_SA armed with `secret` processes the request -> (IkeSa, reply, number of DH computations)"""
+    ik = MODS['ikesa']
     b = ik.IkeSa(is_initiator=False, peer_spi=spi_i, configuration=p.configuration.get_ike_configuration(world.IP2, world.IP1),
                  my_addr=world.IP2, peer_addr=peer_addr, cookie_secret=secret)
     dh_calls, real_dh = spy_dh()
@@ -62,31 +49,80 @@ def h_responder(n_cookies, nonce_len, cookie_len=32):
         reply = p.B.call(b.process_message, data)
     finally:
         ik.DiffieHellman = real_dh
-    # independent spec of the cookie (RFC 7296 2.6 leaves the exact form to the responder; the property fixes it)
-    packed = addr.to_bytes(4, 'big')
-    spec = shims.SymHMAC(secret, core.SymBytes.lift(spi_i) + nonce + packed, digestmod=hashlib.sha256).digest()
-    valid = (cookies[0] == spec) if (cookies and cookie_len == len(spec)) else False
+    return b, reply, len(dh_calls)
+
+
+def h_responder(n_cookies, nonce_len, cookie_len=32, version=4):
+    """The property does not fix the form of the cookie, only what it binds, so the reference is the responder itself: under one ARBITRARY
+    secret, ISSUED(SPI, Ni, address) is the cookie the real responder puts into its COOKIE notification for a cookie-less request.
+    (1) a request with arbitrary cookies is accepted iff its first cookie equals ISSUED of its own SPI, nonce and address ("returned unchanged"),
+        a refusal is nothing but that one COOKIE notification, with no DH computation and no state;
+    (2) ISSUED(triple1) == ISSUED(triple2) only if the triples are equal (HMAC collision-free: axiom) - the cookie binds all three."""
+    from symx import core, shims
+    import ipaddress
+    eng = core.engine()
+    shims.HMAC_UF.injective = True
+    m, ik = MODS['message'], MODS['ikesa']
+    S = ik.IkeSa.State
+    p = world.Pair()
+    base = m.Message.parse(bytes(p.init_req()))
+    secret = eng.sym_bytes('secret', 8)
+    bits = 32 if version == 4 else 128
+    cls_a = ipaddress.IPv4Address if version == 4 else ipaddress.IPv6Address
     P = eng.prove
-    if reply is None:
-        return {'class': ['responder', 'silent'], 'violation': 'IKE_SA_INIT request got no reply at all'}
-    rep = m.Message.parse(reply)
-    if b.state == S.DELETED:
-        P(core.sym_not(valid), 'a request carrying the correct cookie was refused')
+
+    def triple(k):
+        spi = eng.sym_bytes(f'spi_i{k}', 8)
+        nonce = eng.sym_bytes(f'nonce{k}', nonce_len)
+        a = eng.sym_int(f'addr{k}', 0, (1 << bits) - 1, width=bits + 8)
+        return spi, nonce, a, (shims._mk_addr(cls_a, a) if not isinstance(a, int) else cls_a(a))
+
+    def refusal(b, reply, dh, what):
+        """-> the cookie of the COOKIE notification, or a violation dict"""
+        if reply is None:
+            return {'class': ['responder', 'silent'], 'violation': f'{what}: no reply at all'}
+        if b.state != S.DELETED:
+            return {'class': ['responder', 'accepted'], 'violation': f'{what}: accepted by a responder that demands cookies'}
+        rep = m.Message.parse(reply)
         if len(rep.payloads) != 1 or rep.payloads[0].type != m.Payload.Type.NOTIFY:
-            return {'class': ['responder', 'refused'], 'violation': 'the refusal carries something else than one notification'}
+            return {'class': ['responder', 'refused'], 'violation': f'{what}: the refusal carries something else than one notification'}
         n = rep.payloads[0]
-        P(n.notification_type == m.PayloadNOTIFY.Type.COOKIE, 'the refusal is not a COOKIE notification')
-        P(core.SymBytes.lift(n.notification_data) == spec if not isinstance(n.notification_data, bytes) or not isinstance(spec, bytes)
-          else n.notification_data == spec, 'the COOKIE notification does not carry HMAC(secret, SPIi | Ni | source address)')
-        if dh_calls:
-            return {'class': ['responder', 'refused'], 'violation': 'Diffie-Hellman work was done for a request without a valid cookie'}
+        P(n.notification_type == m.PayloadNOTIFY.Type.COOKIE, f'{what}: the refusal is not a COOKIE notification')
+        if dh:
+            return {'class': ['responder', 'refused'], 'violation': f'{what}: Diffie-Hellman work was done for a request without a valid cookie'}
         if b.ike_sa_keyring is not None or b.child_sas:
-            return {'class': ['responder', 'refused'], 'violation': 'state was kept for a request without a valid cookie'}
+            return {'class': ['responder', 'refused'], 'violation': f'{what}: state was kept for a request without a valid cookie'}
+        return n.notification_data
+    spi1, nonce1, a1, addr1 = triple(1)
+    k1 = refusal(*_respond(p, secret, spi1, addr1, _request(m, base, spi1, nonce1, [])), 'request without a cookie')
+    if isinstance(k1, dict):
+        return k1
+    L = core.SymBytes.lift
+    # (2) binding
+    spi2, nonce2, a2, addr2 = triple(2)
+    k2 = refusal(*_respond(p, secret, spi2, addr2, _request(m, base, spi2, nonce2, [])), 'request without a cookie')
+    if isinstance(k2, dict):
+        return k2
+    same = core.sym_and(L(spi1) == spi2, L(nonce1) == nonce2, a1 == a2)
+    P(core.sym_or(same, L(k1) != k2) if len(k1) == len(k2) else True,
+      'two requests that differ in initiator SPI, nonce or source address are issued the SAME cookie: it does not bind all three')
+    if not n_cookies:
         return ['responder', 'refused']
-    P(valid, 'a request was accepted although its first cookie is not HMAC(secret, SPIi | Ni | source address)')
-    if b.state != S.INIT_RES_SENT or not dh_calls:
-        return {'class': ['responder', 'accepted'], 'violation': f'accepted request did not lead to INIT_RES_SENT ({b.state.name})'}
-    return ['responder', 'accepted']
+    # (1) arbitrary cookies
+    cookies = [eng.sym_bytes(f'cookie{i}', cookie_len if i == 0 else 32) for i in range(n_cookies)]
+    unchanged = (L(cookies[0]) == k1) if len(cookies[0]) == len(k1) else False
+    b, reply, dh = _respond(p, secret, spi1, addr1, _request(m, base, spi1, nonce1, cookies))
+    if b.state == S.INIT_RES_SENT:
+        P(unchanged, 'a request was accepted although its first cookie is not the cookie issued for its initiator SPI, nonce and source address')
+        if reply is None or not dh:
+            return {'class': ['responder', 'accepted'], 'violation': 'accepted request produced no IKE_SA_INIT response'}
+        return ['responder', 'accepted']
+    k = refusal(b, reply, dh, 'request with a wrong cookie')
+    if isinstance(k, dict):
+        return k
+    P(core.sym_not(unchanged), 'the issued cookie, returned unchanged with the same SPI, nonce and address, was refused')
+    P(L(k) == k1 if len(k) == len(k1) else False, 'the cookie issued for one and the same request changes from one refusal to the next')
+    return ['responder', 'refused']
 
 
 def h_threshold(k_half_open, k_established, history='none'):
@@ -198,7 +234,11 @@ def build_instances(tier):
         for nl in ((16, 32) if tier == 'quick' else (16, 17, 32, 64, 255, 256)):
             inst.append(Instance(f'responder cookies={n} nonce_len={nl}', h_responder, (n, nl), pin=PIN,
                                  must_reach=[('refused', lambda o: o == ['responder', 'refused'])] +
-                                            ([('accepted', lambda o: o == ['responder', 'accepted'])] if n else [])))
+                                            ([('accepted', lambda o: o[:2] == ['responder', 'accepted'])] if n else [])))
+            if nl == 16:
+                inst.append(Instance(f'responder cookies={n} nonce_len={nl} IPv6', h_responder, (n, nl, 32, 6), pin=PIN,
+                                     must_reach=[('refused', lambda o: o == ['responder', 'refused'])] +
+                                                ([('accepted', lambda o: o[:2] == ['responder', 'accepted'])] if n else [])))
     for cl in ((1, 31, 33) if tier == 'quick' else (1, 2, 8, 16, 20, 31, 33, 48, 64)):
         inst.append(Instance(f'responder cookies=1 nonce_len=16 cookie_len={cl}', h_responder, (1, 16, cl), pin=PIN,
                              must_reach=[('refused', lambda o: o == ['responder', 'refused'])]))
